@@ -9,6 +9,7 @@ import (
 	"hash/fnv"
 	"os"
 	"reflect"
+	"regexp"
 	"runtime/debug"
 	"sort"
 	"strings"
@@ -19,6 +20,7 @@ import (
 
 type viol struct {
 	Class  string `json:"class"`
+	Sig    string `json:"sig"` // normalised cause (error text without numbers/hex/quoted strings/type names)
 	Type   string `json:"type"`
 	Input  string `json:"input"` // hex bytes or value description
 	Len    int    `json:"len"`
@@ -39,6 +41,7 @@ type result struct {
 	Samples   []any            `json:"samples,omitempty"`
 	Err       string           `json:"err,omitempty"`
 	StructDif []string         `json:"structdif,omitempty"`
+	Notes     map[string][]string `json:"notes,omitempty"` // informational: examples per non-violation class
 }
 
 type checker struct {
@@ -54,13 +57,61 @@ func (c *checker) out(class string) { c.res.Outcomes[class]++ }
 
 func (c *checker) violation(class, input string, ilen int, detail string) {
 	c.out("VIOLATION:" + class)
-	v := c.vmap[class]
+	sig := signature(detail)
+	k := class + "|" + sig
+	v := c.vmap[k]
 	if v == nil || ilen < v.Len || (ilen == v.Len && input < v.Input) {
 		if len(detail) > 600 {
 			detail = detail[:600] + "…"
 		}
-		c.vmap[class] = &viol{Class: class, Type: c.reg.name, Input: input, Len: ilen, Detail: detail}
+		c.vmap[k] = &viol{Class: class, Sig: sig, Type: c.reg.name, Input: input, Len: ilen, Detail: detail}
 	}
+}
+
+func (c *checker) note(class, s string) {
+	if c.res.Notes == nil {
+		c.res.Notes = map[string][]string{}
+	}
+	if len(c.res.Notes[class]) < 2 {
+		if len(s) > 400 {
+			s = s[:400]
+		}
+		c.res.Notes[class] = append(c.res.Notes[class], c.reg.name+" "+s)
+	}
+}
+
+var (
+	reCause  = regexp.MustCompile(`(?s)failed after \d+ bytes \((.*)\): [0-9A-F]*$`)
+	reQuoted = regexp.MustCompile(`"[^"]*"`)
+	reType   = regexp.MustCompile(`\*?\b[a-z][a-z0-9]*\.[A-Za-z_][A-Za-z0-9_]*`)
+	reHex    = regexp.MustCompile(`\b[0-9a-fA-F]{6,}\b`)
+	reNum    = regexp.MustCompile(`\d+`)
+	reErr    = regexp.MustCompile(`(?s)(error: |PANIC: )(.*)$`)
+)
+
+// signature normalises the cause of a violation so that the same defect hitting many types/inputs gets one key.
+func signature(detail string) string {
+	d := detail
+	if m := reErr.FindStringSubmatch(d); m != nil {
+		d = m[1] + m[2]
+	} else if strings.Contains(d, "bytes=") || strings.Contains(d, "-decoded=") || strings.Contains(d, "reflect=") {
+		return "" // pure value/bytes difference, no error text
+	}
+	if i := strings.Index(d, " @ "); i >= 0 { // drop stack
+		d = d[:i]
+	}
+	if m := reCause.FindStringSubmatch(d); m != nil {
+		d = m[1]
+	}
+	d = reQuoted.ReplaceAllString(d, "Q")
+	d = reType.ReplaceAllString(d, "T")
+	d = reHex.ReplaceAllString(d, "H")
+	d = reNum.ReplaceAllString(d, "N")
+	d = strings.Join(strings.Fields(d), " ")
+	if len(d) > 100 {
+		d = d[:100]
+	}
+	return d
 }
 
 func (c *checker) finish() {
@@ -180,8 +231,10 @@ func (c *checker) checkValue(m mv) (enc []byte, ok bool) {
 		if eR.failed() {
 			if eR.pan != "" || eG.pan != "" {
 				c.out("value_unencodable_panic_both")
+				c.note("value_unencodable_panic_both", m.d+": reflect "+eR.why()+" | genproto2 "+eG.why())
 			} else {
 				c.out("value_unencodable_both")
+				c.note("value_unencodable_both", m.d+": reflect "+eR.why()+" | genproto2 "+eG.why())
 			}
 			return nil, false
 		}
@@ -195,11 +248,31 @@ func (c *checker) checkValue(m mv) (enc []byte, ok bool) {
 		}
 	} else if eR.failed() {
 		c.out("value_unencodable_reflect_only")
+		c.note("value_unencodable_reflect_only", m.d+": "+eR.why())
 		return nil, false
 	}
 	enc = eR.bz
 	// decode with both
 	dR, rR := c.decR(enc)
+	if rR.failed() && rR.pan == "" && c.reprBroken(p.Elem(), 0) {
+		// the value holds an AminoMarshaler whose own MarshalAmino output is rejected by its UnmarshalAmino
+		// (e.g. Coins{{},{}}, a nil *big.Int): outside the type's domain, not a codec disagreement.
+		c.out("value_outside_domain(repr not re-parseable)")
+		c.note("value_outside_domain", m.d+": "+rR.why())
+		return enc, false
+	}
+	if rR.failed() && rR.pan == "" && strings.Contains(rR.err.Error(), "is not assignable to interface") {
+		// encode-only form (only the non-preferred *T/T form of a registered type implements the interface):
+		// both decoders must reject alike.
+		if c.reg.native {
+			if _, rG := c.decG(enc); !rG.failed() || rG.pan != "" || !strings.Contains(rG.err.Error(), "is not assignable to") {
+				c.violation("encode-only-form/decoders-disagree", m.d, len(m.d), "bytes="+hx(enc)+" reflect "+rR.why()+" | genproto2 "+rG.why())
+				return enc, true
+			}
+		}
+		c.out("value_encode_only_form(both decoders reject: not assignable)")
+		return enc, true
+	}
 	if rR.failed() {
 		c.violation("roundtrip-decode-fails/reflect", m.d, len(m.d), "bytes="+hx(enc)+" "+rR.why())
 		return enc, true
@@ -351,13 +424,33 @@ func h64(b []byte) uint64 {
 	return h.Sum64()
 }
 
-// mutations of a valid encoding: every truncation, every single-byte substitution from {0x00,0xff,^b,b+1,b-1}.
+// mutations of a valid encoding: every truncation, every single-byte substitution from {0x00,0xff,^b,b+1,b-1},
+// every rotation, and the self-concatenation.
+// Inside a run of >= 8 equal bytes (string padding) only the first two and last two positions are used.
 func mutate(enc []byte, emit func([]byte)) {
+	skip := make([]bool, len(enc)+1)
+	for i := 0; i < len(enc); {
+		j := i
+		for j < len(enc) && enc[j] == enc[i] {
+			j++
+		}
+		if j-i >= 8 {
+			for k := i + 2; k < j-2; k++ {
+				skip[k] = true
+			}
+		}
+		i = j
+	}
 	for i := 0; i < len(enc); i++ {
-		emit(enc[:i])
+		if !skip[i] {
+			emit(enc[:i])
+		}
 	}
 	buf := make([]byte, len(enc))
 	for i := 0; i < len(enc); i++ {
+		if skip[i] {
+			continue
+		}
 		b := enc[i]
 		for _, nb := range [5]byte{0x00, 0xff, ^b, b + 1, b - 1} {
 			if nb == b {
@@ -367,6 +460,19 @@ func mutate(enc []byte, emit func([]byte)) {
 			buf[i] = nb
 			emit(buf)
 		}
+	}
+	// every rotation enc[i:]+enc[:i] (a split on a field boundary permutes the field order: out-of-order and
+	// repeated-field inputs) and the self-concatenation enc+enc (every field repeated).
+	for i := 1; i < len(enc); i++ {
+		if skip[i] {
+			continue
+		}
+		copy(buf, enc[i:])
+		copy(buf[len(enc)-i:], enc[:i])
+		emit(buf)
+	}
+	if len(enc) > 0 && len(enc) <= 64 {
+		emit(append(append(make([]byte, 0, 2*len(enc)), enc...), enc...))
 	}
 }
 
@@ -444,4 +550,60 @@ func structDiff(a, b reflect.Value, path string, depth int) string {
 		}
 	}
 	return ""
+}
+
+// reprBroken reports whether v contains (through amino-visible fields) an AminoMarshaler value whose MarshalAmino
+// output is not accepted by its own UnmarshalAmino.
+func (c *checker) reprBroken(v reflect.Value, depth int) (broken bool) {
+	if depth > 12 || !v.IsValid() {
+		return false
+	}
+	defer func() {
+		if recover() != nil {
+			broken = true
+		}
+	}()
+	switch v.Kind() {
+	case reflect.Pointer, reflect.Interface:
+		if v.IsNil() {
+			return false
+		}
+		return c.reprBroken(v.Elem(), depth+1)
+	}
+	info := c.g.info(v.Type())
+	if info == nil {
+		return false
+	}
+	if info.IsAminoMarshaler {
+		a := reflect.New(v.Type())
+		a.Elem().Set(v)
+		outs := a.MethodByName("MarshalAmino").Call(nil)
+		if !outs[1].IsNil() {
+			return true
+		}
+		b := reflect.New(v.Type())
+		res := b.MethodByName("UnmarshalAmino").Call([]reflect.Value{outs[0]})
+		if !res[0].IsNil() {
+			return true
+		}
+		return c.reprBroken(outs[0], depth+1)
+	}
+	switch v.Kind() {
+	case reflect.Struct:
+		for _, f := range info.Fields {
+			if c.reprBroken(v.Field(f.Index), depth+1) {
+				return true
+			}
+		}
+	case reflect.Slice, reflect.Array:
+		if v.Type().Elem().Kind() == reflect.Uint8 {
+			return false
+		}
+		for i := 0; i < v.Len(); i++ {
+			if c.reprBroken(v.Index(i), depth+1) {
+				return true
+			}
+		}
+	}
+	return false
 }
